@@ -109,6 +109,8 @@ func sides() []side {
 type replayCase struct {
 	State, Dir string
 	Protocol   int
+	Kind       string    `json:",omitempty"` // "" = registry cell / fallback; "fromdir"; "register"
+	Lists      []mapList `json:",omitempty"` // Kind "register": the Register calls
 }
 
 func TestVerif(t *testing.T) {
@@ -186,6 +188,18 @@ func TestVerif(t *testing.T) {
 		}
 		unknown = append(unknown, math.MaxInt32, math.MinInt32, 0x7FFF, 1<<20)
 
+		// ---- second half (c06_register_test.go): FromDirection and the Register API on fresh registries
+		if replay && rp.Kind == "register" {
+			runRegister(r, supported, rp.Lists)
+			return
+		}
+		if !replay || rp.Kind == "fromdir" {
+			checkFromDirection(r, supported, unknown, rp, replay)
+			if replay {
+				return
+			}
+		}
+
 		uncoveredBeyond, uncoveredNoRow := 0, 0
 		uncoveredProtocols := map[int]bool{}
 		item := 0
@@ -198,7 +212,7 @@ func TestVerif(t *testing.T) {
 			// registry must have exactly the supported protocols
 			for p := range sd.reg.Protocols {
 				if !supSet[int(p)] {
-					r.Violation("registry/has-unsupported-protocol/"+cellName, fmt.Sprintf("%s has a table for protocol %d which is not a supported version", cellName, p), replayCase{sd.state, sd.dir, int(p)})
+					r.Violation("registry/has-unsupported-protocol/"+cellName, fmt.Sprintf("%s has a table for protocol %d which is not a supported version", cellName, p), replayCase{State: sd.state, Dir: sd.dir, Protocol: int(p)})
 				}
 			}
 			// does the type occur anywhere in this state/direction?
@@ -213,7 +227,7 @@ func TestVerif(t *testing.T) {
 				if !r.Mine(item) || (replay && rp.Protocol != p && supSet[rp.Protocol]) {
 					continue
 				}
-				rc := replayCase{sd.state, sd.dir, p}
+				rc := replayCase{State: sd.state, Dir: sd.dir, Protocol: p}
 				pr := sd.reg.ProtocolRegistry(proto.Protocol(p))
 				if pr == nil {
 					r.Violation("registry/no-table-for-supported-protocol/"+cellName, fmt.Sprintf("%s: ProtocolRegistry(%d) is nil", cellName, p), rc)
@@ -324,7 +338,7 @@ func TestVerif(t *testing.T) {
 			}
 			minTable := sd.reg.Protocols[minProto]
 			if sd.mustFallback && !sd.reg.Fallback {
-				r.Violation("fallback/disabled/"+cellName, cellName+": Fallback is false; unknown protocol versions get no table", replayCase{sd.state, sd.dir, -1})
+				r.Violation("fallback/disabled/"+cellName, cellName+": Fallback is false; unknown protocol versions get no table", replayCase{State: sd.state, Dir: sd.dir, Protocol: -1})
 			}
 			for _, u := range unknown {
 				if replay && rp.Protocol != u {
@@ -332,7 +346,7 @@ func TestVerif(t *testing.T) {
 				}
 				r.Eval(1)
 				got := sd.reg.ProtocolRegistry(proto.Protocol(u))
-				rc := replayCase{sd.state, sd.dir, u}
+				rc := replayCase{State: sd.state, Dir: sd.dir, Protocol: u}
 				switch {
 				case got == nil && sd.mustFallback:
 					r.Violation("fallback/no-table/"+cellName, fmt.Sprintf("%s: unknown protocol %d gets no table", cellName, u), rc)
@@ -351,6 +365,9 @@ func TestVerif(t *testing.T) {
 					}
 				}
 			}
+		}
+		if !replay {
+			checkRegisterAPI(r, supported, &item)
 		}
 		if !replay {
 			var up []int
